@@ -329,7 +329,7 @@ class TableBuilder:
             r = n["ref"]
             if r.get("dk") == "enumconst":
                 return r.get("v")
-            if r.get("dk") in ("parm", "local"):
+            if r.get("dk") in ("parm", "local", "staticlocal"):
                 return env.get(r.get("decl"))
             return None
         if k in _CASTS:
@@ -344,7 +344,7 @@ class TableBuilder:
                     self._broken(fn, n, "address of a table element")
                 return None
             if op in ("++", "--") and c and c[0].get("k") == "DeclRefExpr" \
-                    and c[0]["ref"].get("dk") in ("parm", "local"):
+                    and c[0]["ref"].get("dk") in ("parm", "local", "staticlocal"):
                 d = c[0]["ref"]["decl"]
                 old = env.get(d)
                 new = None if not isinstance(old, int) else old + (1 if op == "++" else -1)
@@ -379,7 +379,7 @@ class TableBuilder:
                     return val
                 if f in self.dims:
                     self._broken(fn, n, "whole-table assignment")
-                if lhs.get("k") == "DeclRefExpr" and lhs["ref"].get("dk") in ("parm", "local"):
+                if lhs.get("k") == "DeclRefExpr" and lhs["ref"].get("dk") in ("parm", "local", "staticlocal"):
                     val = self._ev(fn, rhs, env)
                     env[lhs["ref"]["decl"]] = val
                     return val
@@ -408,7 +408,7 @@ class TableBuilder:
             return _arith(op, self._ev(fn, c[0], env), self._ev(fn, c[1], env))
         if k == "CompoundAssignOperator":
             lhs, rhs = c
-            if lhs.get("k") == "DeclRefExpr" and lhs["ref"].get("dk") in ("parm", "local"):
+            if lhs.get("k") == "DeclRefExpr" and lhs["ref"].get("dk") in ("parm", "local", "staticlocal"):
                 d = lhs["ref"]["decl"]
                 env[d] = _arith(n.get("op", "")[:-1], env.get(d), self._ev(fn, rhs, env))
                 return env[d]
@@ -425,6 +425,15 @@ class TableBuilder:
         if k == "MemberExpr":
             if _this_field(n) == self.state_field:
                 return self.state
+            return None
+        if k == "InitListExpr":
+            return ("arr", tuple(self._ev(fn, x, env) for x in c))
+        if k == "ArraySubscriptExpr" and len(c) == 2 and c[0].get("k") == "DeclRefExpr" \
+                and c[0]["ref"].get("dk") in ("parm", "local", "staticlocal"):
+            arr = env.get(c[0]["ref"].get("decl"))
+            i = self._ev(fn, c[1], env)
+            if isinstance(arr, tuple) and arr and arr[0] == "arr" and isinstance(i, int) and 0 <= i < len(arr[1]):
+                return arr[1][i]
             return None
         if k == "ArraySubscriptExpr":
             tr = _subscript(n, self.dims)
@@ -876,6 +885,28 @@ def _tokens(items):
 
 # --------------------------------------------------------------------------- shared pieces
 
+def _const_return(fx, fn, depth=0):
+    """the integer every return statement of fn yields (following `return g(...)` into g), else None"""
+    if fn is None or fn.body is None or depth > 4:
+        return None
+    vals = set()
+    for r in fn.walk():
+        if r.get("k") != "ReturnStmt":
+            continue
+        v = None
+        for x in F.children(r):
+            v = x
+        if v is None:
+            return None
+        if v.get("k") == "IntegerLiteral":
+            vals.add(v.get("v"))
+        elif is_call(v) and v.get("calleeKey") in fx.functions:
+            vals.add(_const_return(fx, fx.functions[v["calleeKey"]], depth + 1))
+        else:
+            return None
+    return vals.pop() if len(vals) == 1 else None
+
+
 def _tag_model(ctx, fx, tag_fn, error_fn, enum_values, unknown_name, label):
     """tag(): literal -> enumerator map; the value returned on the error path; purity (a known
     enumerator is never returned after error() was called)."""
@@ -914,12 +945,32 @@ def _tag_model(ctx, fx, tag_fn, error_fn, enum_values, unknown_name, label):
                 unknown_ret = rv
             elif unknown_ret == "none":
                 unknown_ret = None
+                if val is not None and is_call(val) and val.get("calleeKey") in fx.functions:
+                    unknown_ret = _const_return(fx, fx.functions[val["calleeKey"]])
     ctx.report(RULE, "%s:tag:unknown-is-an-error" % label, bool(err_calls) and not impure,
                tag_fn.where(), tag_fn.short,
                msg="" if err_calls and not impure else
                ("tag() never calls the error function for an unknown name" if not err_calls else
                 "tag() returns a known enumerator after the error function was called: %s" % impure))
     return tmap, (None if unknown_ret == "none" else unknown_ret)
+
+
+def _used_tags(A, reach, tags_enum, unknown_name):
+    """tag enumerators that some reachable state accepts (non-error post-state), including enumerators
+    that tag() never returns (their start transitions are computed here, they are not explored)"""
+    used = set()
+    for e in tags_enum:
+        t = e["v"]
+        if e["name"] == unknown_name:
+            continue
+        for s in reach:
+            if s == A.error:
+                continue
+            toks = A.start[(s, t)] if (s, t) in A.start else _tokens(A.start_fn(s, t))
+            if any(x != TOP and x[1] != A.error for x in toks):
+                used.add(t)
+                break
+    return used
 
 
 def _f5(ctx, label, tag_fn, tags_enum, tmap, used, unknown_name, floor_strings):
@@ -1174,8 +1225,8 @@ def rule_lnar(ctx):
         ctx.note("LNARparser: unbounded nesting cycles (post-state, tag): %s"
                  % sorted((sname.get(a), tname.get(b)) for a, b in A.unbounded))
     _report_escapes(ctx, A, "LNARparser")
-    ctx.floor(RULE, 150, len(reach), "reachable LNARparser states")
-    ctx.floor(RULE, 10000, n_trans, "LNARparser transitions checked")
+    ctx.floor(RULE, 100, len(reach), "reachable LNARparser states")
+    ctx.floor(RULE, 8000, n_trans, "LNARparser transitions checked")
     # table construction
     n_entries = _report_table_conflicts(
         ctx, "LNARparser", tb, lambda name, key: (sname.get(key[0], str(key[0])), tname.get(key[1], str(key[1]))),
@@ -1209,7 +1260,7 @@ def rule_lnar(ctx):
                    msg="" if ok else "start handler %s can return normally with a net stack effect of %s "
                    "(must push exactly one end handler, else end tags are dispatched to the wrong element)"
                    % (_vname(h), sorted(counts)))
-    ctx.floor(RULE, 80, n_h, "LNARparser start handlers with a push obligation")
+    ctx.floor(RULE, 60, n_h, "LNARparser start handlers with a push obligation")
     # character data never moves the automaton except through error()
     bad = []
     for s in sorted(reach):
@@ -1219,11 +1270,8 @@ def rule_lnar(ctx):
     ctx.report(RULE, "LNARparser:data:state-preserving", not bad, X["data_fn"].where(), X["data_fn"].short,
                msg="" if not bad else "characterDataHandler changes the state: %s" % bad[:5])
     # F5
-    used = set()
-    for (s, t), toks in A.start.items():
-        if s in reach and any(x != TOP and x[1] != A.error for x in toks):
-            used.add(t)
-    _f5(ctx, "LNARparser", tag_fn, X["tags_e"], tmap, used, T["unknown_tag"], 95)
+    used = _used_tags(A, reach, X["tags_e"], T["unknown_tag"])
+    _f5(ctx, "LNARparser", tag_fn, X["tags_e"], tmap, used, T["unknown_tag"], 90)
     return A, configs, edges, tmap
 
 
@@ -1365,8 +1413,8 @@ def rule_dataparser(ctx):
         ctx.note("DataParser: unbounded nesting cycles (post-state, tag): %s"
                  % sorted((sname.get(a), tname.get(b)) for a, b in A.unbounded))
     _report_escapes(ctx, A, "DataParser")
-    ctx.floor(RULE, 250, len(reach), "reachable DataParser states")
-    ctx.floor(RULE, 40000, n_trans, "DataParser transitions checked")
+    ctx.floor(RULE, 200, len(reach), "reachable DataParser states")
+    ctx.floor(RULE, 30000, n_trans, "DataParser transitions checked")
 
     def names(name, key):
         if len(key) == 2:
@@ -1394,11 +1442,8 @@ def rule_dataparser(ctx):
                msg="" if not bad else "a character-data handler changes the state: %s" % bad[:5],
                detail={"handlers": sorted(_vname(h) for h in handlers if h)})
     # F5: data_tag enumerators vs tag() vs init calls
-    used = set()
-    for (s, t), toks in A.start.items():
-        if s in reach and any(x != TOP and x[1] != A.error for x in toks):
-            used.add(t)
-    _f5(ctx, "DataParser", tag_fn, X["tags_e"], tmap, used, T["unknown_tag"], 160)
+    used = _used_tags(A, reach, X["tags_e"], T["unknown_tag"])
+    _f5(ctx, "DataParser", tag_fn, X["tags_e"], tmap, used, T["unknown_tag"], 150)
     return A, configs, edges, tmap
 
 
@@ -1420,6 +1465,8 @@ class Xsd:
             raise AnalysisBroken("schema %s is not well-formed: %s" % (path, e))
         self.gelems = {e.get("name"): e for e in self.root.findall(XS + "element")}
         self.gtypes = {e.get("name"): e for e in self.root.findall(XS + "complexType")}
+        self.ggroups = {e.get("name"): e for e in self.root.findall(XS + "group")}
+        self.gattrgroups = {e.get("name"): e for e in self.root.findall(XS + "attributeGroup")}
         self.all_names = {e.get("name") for e in self.root.iter(XS + "element") if e.get("name")}
         self._memo = {}
 
@@ -1445,9 +1492,16 @@ class Xsd:
                 if base in self.gtypes:
                     self._content(self.gtypes[base], kids, attrs, depth + 1)
                 self._content(ch, kids, attrs, depth + 1)
+            elif tag in (XS + "group", XS + "attributeGroup") and ch.get("ref"):
+                g = (self.ggroups if tag == XS + "group" else self.gattrgroups).get(self._local(ch.get("ref")))
+                if g is None:
+                    raise AnalysisBroken("schema refers to an undeclared group %s" % ch.get("ref"))
+                self._content(g, kids, attrs, depth + 1)
             elif tag in (XS + "complexType", XS + "sequence", XS + "choice", XS + "all",
                          XS + "complexContent", XS + "simpleContent"):
                 self._content(ch, kids, attrs, depth + 1)
+            elif tag in (XS + "any", XS + "anyAttribute"):
+                raise AnalysisBroken("schema uses xs:any - the vocabulary is open, agreement cannot be decided")
 
     def describe(self, name):
         """(children, attributes) of the element called name"""
@@ -1504,6 +1558,26 @@ def _string_eq_literals(fn, var_decl):
     return out
 
 
+def _atts_aliases(fn, atts_decl):
+    """the parameter holding expat's attribute array and every local pointer initialised from it"""
+    al = {atts_decl}
+    changed = True
+    while changed:
+        changed = False
+        for n in fn.walk():
+            if n.get("k") != "DeclStmt":
+                continue
+            for d in n.get("decls", []):
+                src = d.get("init")
+                while src is not None and src.get("k") in _CASTS and src.get("c"):
+                    src = src["c"][0]
+                if (src is not None and src.get("k") == "DeclRefExpr" and src["ref"].get("decl") in al
+                        and d["decl"] not in al and (d.get("t") or "").replace(" ", "") == "constchar**"):
+                    al.add(d["decl"])
+                    changed = True
+    return al
+
+
 def _atts_reads(fn, atts_decl):
     """Assignments/initialisations of locals from successive elements of the expat attribute array:
     list of (target decl, node) in execution order, name/value alternating."""
@@ -1513,11 +1587,11 @@ def _atts_reads(fn, atts_decl):
         for y in walk(x):
             if y.get("k") == "UnaryOperator" and y.get("op") == "*":
                 for z in walk(y):
-                    if z.get("k") == "DeclRefExpr" and z["ref"].get("decl") == atts_decl:
+                    if z.get("k") == "DeclRefExpr" and z["ref"].get("decl") in atts_decl:
                         return ("seq", None)
             if y.get("k") == "ArraySubscriptExpr":
                 c = y.get("c") or []
-                if len(c) == 2 and c[0].get("k") == "DeclRefExpr" and c[0]["ref"].get("decl") == atts_decl \
+                if len(c) == 2 and c[0].get("k") == "DeclRefExpr" and c[0]["ref"].get("decl") in atts_decl \
                         and c[1].get("k") == "IntegerLiteral":
                     return ("idx", c[1].get("v"))
         return None
@@ -1557,16 +1631,16 @@ def _attr_names(fx, fn, hier, seen=None):
     atts = [p for p in fn.params if p["t"].replace(" ", "") == "constchar**"]
     if not atts:
         return res
-    atts_decl = atts[0]["decl"]
+    atts_decl = _atts_aliases(fn, atts[0]["decl"])
     cfg = fn.cfg
-    reads = _atts_reads(fn, atts_decl)
+    reads = [r for r in _atts_reads(fn, atts_decl) if r[0] not in atts_decl]
     # helper calls that receive the attribute array
     for n in fn.calls():
         if n.get("k") != "CXXMemberCallExpr" or not _is_this(F.call_object(n)):
             continue
         if strip_targs(n.get("calleeClass") or "") not in hier:
             continue
-        if any(a.get("k") == "DeclRefExpr" and a["ref"].get("decl") == atts_decl for a in (n.get("c") or [])[1:]):
+        if any(a.get("k") == "DeclRefExpr" and a["ref"].get("decl") in atts_decl for a in (n.get("c") or [])[1:]):
             callee = fx.functions.get(n.get("calleeKey"))
             if callee is not None and callee.body is not None:
                 sub = _attr_names(fx, callee, hier, seen)
@@ -1797,7 +1871,7 @@ class _Strings:
             for x in fn.walk():
                 if x.get("k") == "DeclStmt":
                     for dd in x.get("decls", []):
-                        if dd["decl"] == d and dd.get("init") is not None:
+                        if dd.get("decl") == d and dd.get("init") is not None:
                             out |= self.of(fn, dd["init"], depth + 1)
                 elif x.get("k") == "BinaryOperator" and x.get("op") == "=" and \
                         x["c"][0].get("k") == "DeclRefExpr" and x["c"][0]["ref"].get("decl") == d:
@@ -1849,13 +1923,19 @@ class _Strings:
 
 def writer_elements(ctx, fx, T):
     """element names written by the adjustment-XML writer: (opened, closed, where-by-name)"""
-    anchor = fx.fn(T["writer_class"] + "::" + T["writer_entry"])
-    files = {f.file for f in fx.methods_of(T["writer_class"])}
+    anchor = None
+    files = set()
+    for w in T["writers"]:
+        a = fx.fn(w["class"] + "::" + w["entry"])
+        anchor = anchor or a
+        files |= {f.file for f in fx.methods_of(w["class"])}
     scope = [f for f in fx.functions.values() if f.file in files and f.body is not None and f.cls]
     S = _Strings(fx, scope)
     opened, closed, where = set(), set(), {}
     n_lit = 0
     for f in scope:
+        left_open = set()
+        selfclose = False
         inner = set()
         chains = []
         for n in f.walk():
@@ -1885,6 +1965,8 @@ def writer_elements(ctx, fx, T):
                     continue
                 covered.add(lit["id"])
                 text = lit.get("v") or ""
+                if re.match(r"\s*/>", text):
+                    selfclose = True         # closes a start tag that an earlier literal left open
                 if "<" not in text:
                     continue
                 ctx.saw(f)
@@ -1916,6 +1998,10 @@ def writer_elements(ctx, fx, T):
                         where.setdefault(x, f.where(lit))
                         if not close and re.match(r"\s*/>", rest) and name is not None:
                             closed.add(x)
+                        if not close and name is not None and ">" not in rest:
+                            left_open.add(x)
+        if selfclose:
+            closed |= left_open
         # literals with markup that are not written through a recognised ostream chain
         for n in f.walk():
             if n.get("k") == "StringLiteral" and n["id"] not in covered and _TAG_RE.search(n.get("v") or "") \
@@ -1934,7 +2020,11 @@ def rule_xsd_adjxml(ctx):
     tag_fn = fx.fn(T["reader_class"] + "::tag")
     ctx.saw(tag_fn)
     known = set(fsm.tag_function_map(tag_fn))
-    declared = set(xsd.all_names)
+    declared = set(xsd.reachable(T["root"]))
+    orphans = sorted(set(xsd.all_names) - declared)
+    if orphans:
+        ctx.note("adjxml: elements declared in %s but not reachable from <%s> (ignored): %s"
+                 % (T["schema"], T["root"], orphans))
     diffs = T.get("differences", {})
     n = 0
     for name in sorted(opened | closed | known | declared | set(diffs)):
